@@ -390,7 +390,7 @@ func (d *admDriver) exec(e BEvent, tw *TraceWriter) (halted bool) {
 		panic("unknown event " + e.Ev)
 	}
 	if os.Getenv("ADM_RAWMEM") != "" {
-		line["rawmem"] = oraclekeeper.VerifAdmDumpMem()
+		line["rawmem"] = deepDump(oraclekeeper.VerifAdmMemRoots()["agc"])
 	}
 	halted = line["halt"] == true
 	func() {
@@ -435,11 +435,6 @@ func (d *admDriver) nonceMap(ctx sdk.Context) map[string]int {
 	return out
 }
 
-func asMap(x interface{}) map[string]interface{} {
-	m, _ := x.(map[string]interface{})
-	return m
-}
-
 func (d *admDriver) project() map[string]interface{} {
 	ctx := d.deliverCtx()
 	out := d.out
@@ -461,84 +456,91 @@ func (d *admDriver) project() map[string]interface{} {
 	}
 	st["next"] = next
 
-	// in-memory rounds / workers of agc (through a JSON round trip of the read-only dump)
-	var mem map[string]interface{}
-	bz, _ := json.Marshal(oraclekeeper.VerifAdmDumpMem())
-	json.Unmarshal(bz, &mem)
+	// in-memory rounds / workers of agc: generic reflection dump, pieces looked up BY NAME with "absent" fall-backs
+	// (a renamed / re-typed internal becomes strict-lane drift, never a panic)
 	rounds := map[string]interface{}{}
 	wk := map[string]interface{}{}
 	mvals := []string{}
-	if agc := asMap(mem["agc"]); agc != nil {
-		for a := range asMap(agc["validatorsPower"]) {
-			mvals = append(mvals, d.model(a))
+	agc := deepDump(oraclekeeper.VerifAdmMemRoots()["agc"])
+	for a := range dmap(dfield(agc, "validatorsPower")) {
+		mvals = append(mvals, d.model(a))
+	}
+	for f, r := range dmap(dfield(agc, "rounds")) {
+		status := "closed"
+		if n, ok := dint(dfield(r, "status")); ok && n == 1 {
+			status = "open"
 		}
-		for f, r := range asMap(agc["rounds"]) {
-			rr := asMap(r)
-			status := "closed"
-			if int(rr["status"].(float64)) == 1 {
-				status = "open"
-			}
-			rounds[f] = map[string]interface{}{"status": status, "base": int(rr["basedBlock"].(float64)), "next": int(rr["nextRoundID"].(float64))}
-		}
-		for f, x := range asMap(agc["workers"]) {
-			w := asMap(x)
-			o := map[string]interface{}{"sealed": w["sealed"]}
-			fnon := map[string]interface{}{}
-			seen := map[string]interface{}{}
-			if fl := asMap(w["filter"]); fl != nil {
-				for k, l := range asMap(fl["validatorNonce"]) {
-					if len(l.([]interface{})) > 0 {
-						fnon[d.model(k)] = l
-					}
+		base, _ := dint(dfield(r, "basedBlock"))
+		nxt, _ := dint(dfield(r, "nextRoundID"))
+		rounds[f] = map[string]interface{}{"status": status, "base": base, "next": nxt}
+	}
+	for f, w := range dmap(dfield(agc, "aggregators", "workers")) {
+		sealed, _ := dfield(w, "sealed").(bool)
+		o := map[string]interface{}{"sealed": sealed}
+		fnon := map[string]interface{}{}
+		seen := map[string]interface{}{}
+		fl := dfield(w, "f", "filter")
+		for k, set := range dmap(dfield(fl, "validatorNonce")) {
+			var l []int
+			for _, x := range dlist(set) {
+				if n, ok := dint(x); ok {
+					l = append(l, n)
 				}
-				for k, l := range asMap(fl["validatorSource"]) {
-					if len(l.([]interface{})) == 0 {
-						continue
-					}
-					// key = creator bech32 + decimal source id
-					name := k
-					for a, m := range d.nameOf {
-						if strings.HasPrefix(k, a) {
-							name = m + "|" + k[len(a):]
+			}
+			sort.Ints(l)
+			if len(l) > 0 {
+				fnon[d.model(k)] = l
+			}
+		}
+		for k, set := range dmap(dfield(fl, "validatorSource")) {
+			var l []string
+			for _, x := range dlist(set) {
+				l = append(l, dstr(x))
+			}
+			sort.Strings(l)
+			if len(l) == 0 {
+				continue
+			}
+			// the key names a creator (bech32) and a source id, as one string or as a struct rendered "creator|id"
+			name := k
+			for a, m := range d.nameOf {
+				if i := strings.Index(k, a); i >= 0 {
+					rest := k[:i] + k[i+len(a):]
+					digits := strings.Map(func(r rune) rune {
+						if r >= '0' && r <= '9' {
+							return r
 						}
-					}
-					seen[name] = l
+						return -1
+					}, rest)
+					name = m + "|" + digits
 				}
 			}
-			o["fnon"], o["seen"] = fnon, seen
-			reps := []string{}
-			conf := ""
-			cpow := map[string]interface{}{}
-			if ag := asMap(w["aggregator"]); ag != nil {
-				if rl, ok := ag["reports"].([]interface{}); ok {
-					for _, r := range rl {
-						reps = append(reps, d.model(asMap(r)["validator"].(string)))
-					}
-				}
-				if c, ok := asMap(ag["dsPrices"])["1"].(string); ok {
-					conf = c
-				}
-				o["final"] = ag["finalPrice"] != nil
-			}
-			if c := asMap(w["calculator"]); c != nil {
-				if rl, ok := asMap(c["ds"])["1"].([]interface{}); ok {
-					for _, r := range rl {
-						rr := asMap(r)
-						tot := 0
-						if pl, ok := rr["prices"].([]interface{}); ok {
-							for _, p := range pl {
-								n, _ := strconv.Atoi(asMap(p)["power"].(string))
-								tot += n
-							}
-						}
-						cpow[rr["detID"].(string)] = tot
-					}
-				}
-			}
-			sort.Strings(reps)
-			o["reps"], o["conf"], o["cpow"] = reps, conf, cpow
-			wk[f] = o
+			seen[name] = l
 		}
+		o["fnon"], o["seen"] = fnon, seen
+		reps := []string{}
+		conf := ""
+		cpow := map[string]interface{}{}
+		ag := dfield(w, "a", "aggregator")
+		for _, r := range dlist(dfield(ag, "reports")) {
+			reps = append(reps, d.model(dstr(dfield(r, "validator"))))
+		}
+		conf = dstr(dfield(dfield(ag, "dsPrices"), "1"))
+		o["final"] = dfield(ag, "finalPrice") != nil
+		calc := dfield(w, "c", "calculator")
+		for _, r := range dlist(dfield(dfield(dfield(calc, "deterministicSource"), "1"), "roundPricesList")) {
+			tot := 0
+			for _, p := range dlist(dfield(r, "prices")) {
+				n, _ := dint(dfield(p, "power"))
+				tot += n
+			}
+			if id := dstr(dfield(r, "detID")); id != "" {
+				cpow[id] = tot
+			}
+		}
+		sort.Strings(reps)
+		o["reps"], o["conf"], o["cpow"] = reps, conf, cpow
+		wk[f] = o
 	}
 	sort.Strings(mvals)
 	st["mvals"] = mvals
@@ -605,24 +607,18 @@ func (d *admDriver) moduleDigests(ctx sdk.Context) (mods map[string]string, othe
 	return
 }
 
-func stripFnon(mem map[string]interface{}) {
-	if agc := asMap(mem["agc"]); agc != nil {
-		for _, x := range asMap(agc["workers"]) {
-			if fl := asMap(asMap(x)["filter"]); fl != nil {
-				delete(fl, "validatorNonce")
-			}
-		}
-	}
-}
-
 func (d *admDriver) digests() map[string]interface{} {
 	mods, others, oraRest := d.moduleDigests(d.deliverCtx())
 	cmods, cothers, coraRest := d.moduleDigests(d.checkCtx())
-	var mem map[string]interface{}
-	bz, _ := json.Marshal(oraclekeeper.VerifAdmDumpMem())
-	json.Unmarshal(bz, &mem)
+	mem := map[string]interface{}{}
+	for k, v := range oraclekeeper.VerifAdmMemRoots() {
+		mem[k] = deepDump(v)
+	}
+	bz, _ := json.Marshal(mem)
 	full := sha256.Sum256(bz)
-	stripFnon(mem)
+	// "core": without the filters' per-validator nonce sets (the in-memory mirror of the nonce store)
+	dropFields(mem["agc"], "nonce")
+	blankIntSetMaps(mem["agc"])
 	cbz, _ := json.Marshal(mem)
 	core := sha256.Sum256(cbz)
 	return map[string]interface{}{"mods": mods, "kv": others, "ora": mods[oracletypes.StoreKey], "oraRest": oraRest,
